@@ -211,12 +211,30 @@ impl<L: Language> NthChild<L> {
     let parent = node.parent()?;
     //  only consider named children
     let mut children: Vec<_> = if let Some(rule) = &self.of_rule {
-      // if of_rule is present, only consider children that match the rule
-      parent
+      // if of_rule is present, only consider children that match the rule.
+      // Every sibling is tried on its own copy of the env so that bindings made for one
+      // sibling cannot disqualify another; only the bindings of `node` itself are kept.
+      // Keep the sibling, not the node returned by the rule (relational rules return
+      // the related node).
+      let mut node_env = None;
+      let children = parent
         .children()
         .filter(|n| n.is_named())
-        .filter_map(|child| rule.match_node_with_env(child, env))
-        .collect()
+        .filter(|child| {
+          let mut child_env = Cow::Borrowed(env.as_ref());
+          let matched = rule
+            .match_node_with_env(child.clone(), &mut child_env)
+            .is_some();
+          if matched && child.node_id() == node.node_id() {
+            node_env = Some(child_env.into_owned());
+          }
+          matched
+        })
+        .collect();
+      if let Some(node_env) = node_env {
+        *env = Cow::Owned(node_env);
+      }
+      children
     } else {
       parent.children().filter(|n| n.is_named()).collect()
     };
@@ -251,8 +269,16 @@ impl<L: Language> Matcher<L> for NthChild<L> {
     node: Node<'tree, D>,
     env: &mut Cow<MetaVarEnv<'tree, D>>,
   ) -> Option<Node<'tree, D>> {
-    let index = self.find_index(&node, env)?;
-    self.position.is_matched(index).then_some(node)
+    // do not leave ofRule's bindings behind when the position does not match
+    let mut new_env = Cow::Borrowed(env.as_ref());
+    let index = self.find_index(&node, &mut new_env)?;
+    if !self.position.is_matched(index) {
+      return None;
+    }
+    if let Cow::Owned(new_env) = new_env {
+      *env = Cow::Owned(new_env);
+    }
+    Some(node)
   }
   fn potential_kinds(&self) -> Option<BitSet> {
     let rule = self.of_rule.as_ref()?;
